@@ -432,4 +432,94 @@ theorem dataAt_update_invisible {e x : Entry} {np : NPath} {q : Path} (h : Track
       exact this
     exact dataAt_update_off h hg hd P hP
 
+/-! ### errors recorded in a tree -/
+
+theorem mem_allErrorsL {er : Err} (l : List Entry) : er ∈ Entry.allErrorsL l ↔ ∃ e ∈ l, er ∈ e.allErrors := by
+  induction l with
+  | nil => simp [Entry.allErrorsL]
+  | cons x xs ih => simp [Entry.allErrorsL, ih]
+
+theorem mem_allErrors {er : Err} (e : Entry) :
+    er ∈ e.allErrors ↔ (∃ c ∈ e.dir, er ∈ c.allErrors) ∨ (∃ c ∈ e.inp, er ∈ c.allErrors) ∨
+      (∃ c ∈ e.out, er ∈ c.allErrors) ∨ er ∈ e.d.errors := by
+  cases e with
+  | mk d c i o => simp [Entry.allErrors, mem_allErrorsL, or_assoc]
+
+theorem own_errors_sub {er : Err} (e : Entry) (h : er ∈ e.d.errors) : er ∈ e.allErrors :=
+  (mem_allErrors e).mpr (Or.inr (Or.inr (Or.inr h)))
+
+/-- The errors of a node that is really in the tree are among the tree's errors. -/
+theorem getAt_errors_sub {er : Err} : ∀ (q : Path) (e x : Entry), e.getAt q = some x → er ∈ x.allErrors → er ∈ e.allErrors
+  | [], e, x, h, hx => by simp [Entry.getAt] at h; subst h; exact hx
+  | .child k :: q, e, x, h, hx => by
+    simp only [Entry.getAt] at h
+    cases hc : e.child? k with
+    | none => simp [hc] at h
+    | some c =>
+      simp only [hc, Option.bind_some] at h
+      have := getAt_errors_sub q c x h hx
+      exact (mem_allErrors e).mpr (Or.inl ⟨c, List.mem_of_find?_eq_some hc, this⟩)
+  | .input :: q, e, x, h, hx => by
+    simp only [Entry.getAt] at h
+    cases hc : e.inp.head? with
+    | none => simp [hc] at h
+    | some c =>
+      simp only [hc, Option.bind_some] at h
+      have := getAt_errors_sub q c x h hx
+      exact (mem_allErrors e).mpr (Or.inr (Or.inl ⟨c, List.mem_of_mem_head? hc, this⟩))
+  | .output :: q, e, x, h, hx => by
+    simp only [Entry.getAt] at h
+    cases hc : e.out.head? with
+    | none => simp [hc] at h
+    | some c =>
+      simp only [hc, Option.bind_some] at h
+      have := getAt_errors_sub q c x h hx
+      exact (mem_allErrors e).mpr (Or.inr (Or.inr (Or.inl ⟨c, List.mem_of_mem_head? hc, this⟩)))
+
+/-- `g` never loses an error. -/
+def ErrMono (g : Entry → Entry) : Prop := ∀ (y : Entry) (er : Err), er ∈ y.allErrors → er ∈ (g y).allErrors
+
+/-- Errors persist under an update by an error-monotone function. -/
+theorem updateAt_errors_mono {g : Entry → Entry} (hg : ErrMono g) {er : Err} :
+    ∀ (q : Path) (e : Entry), er ∈ e.allErrors → er ∈ (e.updateAt q g).allErrors
+  | [], e, h => by rw [updateAt_nil]; exact hg e er h
+  | .child k :: q, .mk d c i o, h => by
+    rw [updateAt_child]
+    rw [mem_allErrors] at h ⊢
+    simp only [mk_dir, mk_inp, mk_out, mk_d] at h ⊢
+    rcases h with ⟨y, hy, hye⟩ | h
+    · left
+      refine ⟨if y.name == k then y.updateAt q g else y, List.mem_map.mpr ⟨y, hy, rfl⟩, ?_⟩
+      by_cases hk : (y.name == k) = true
+      · simp only [hk, if_true]; exact updateAt_errors_mono hg q y hye
+      · simp only [hk, Bool.false_eq_true, if_false]; exact hye
+    · exact Or.inr h
+  | .input :: q, .mk d c i o, h => by
+    rw [updateAt_input]
+    rw [mem_allErrors] at h ⊢
+    simp only [mk_dir, mk_inp, mk_out, mk_d] at h ⊢
+    rcases h with h | ⟨y, hy, hye⟩ | h
+    · exact Or.inl h
+    · exact Or.inr (Or.inl ⟨y.updateAt q g, List.mem_map.mpr ⟨y, hy, rfl⟩, updateAt_errors_mono hg q y hye⟩)
+    · exact Or.inr (Or.inr h)
+  | .output :: q, .mk d c i o, h => by
+    rw [updateAt_output]
+    rw [mem_allErrors] at h ⊢
+    simp only [mk_dir, mk_inp, mk_out, mk_d] at h ⊢
+    rcases h with h | h | ⟨y, hy, hye⟩ | h
+    · exact Or.inl h
+    · exact Or.inr (Or.inl h)
+    · exact Or.inr (Or.inr (Or.inl ⟨y.updateAt q g, List.mem_map.mpr ⟨y, hy, rfl⟩, updateAt_errors_mono hg q y hye⟩))
+    · exact Or.inr (Or.inr (Or.inr h))
+
+theorem addErr_errMono (x : Err) : ErrMono (fun e => e.addErr x) := by
+  intro y er h
+  rw [mem_allErrors] at h ⊢
+  simp only [Entry.addErr, withD_dir, withD_inp, withD_out, withD_d] at h ⊢
+  rcases h with h | h | h | h
+  · exact Or.inl h
+  · exact Or.inr (Or.inl h)
+  · exact Or.inr (Or.inr (Or.inl h))
+  · exact Or.inr (Or.inr (Or.inr (by simp [h])))
+
 end Goyang.Lemmas.AugmentTree
